@@ -14,6 +14,23 @@ GFA_TEXT = (
 PATHSEQ = "ACGTACGTAC" + "GGATTCCA"
 
 
+def make_long_inputs(d, nrec):
+    """the same shape with reads of 30,010 bases (code that treats long alignments specially has something to do)"""
+    from mc import gen
+
+    os.makedirs(d, exist_ok=True)
+    big = gen._seq(30_100, 11)
+    fw.write_text(os.path.join(d, "g.gfa"), f"S\tb1\t{big}\tLN:i:{len(big)}\tSN:Z:chr1\tSO:i:0\tSR:i:0\nS\tb2\tACGT\tLN:i:4\tSN:Z:chr1\tSO:i:{len(big)}\tSR:i:0\nL\tb1\t+\tb2\t+\t0M\n")
+    fa, gaf = [], []
+    for i in range(nrec):
+        seq = big[i : i + 30_010]
+        fa.append(f">r{i}\n{seq}\n")
+        gaf.append(f"r{i}\t30010\t0\t30010\t+\t>b1>b2\t{len(big) + 4}\t{i}\t{i + 30010}\t30010\t30010\t60\ttp:A:P\tcg:Z:30010=\n")
+    fw.write_text(os.path.join(d, "r.fa"), "".join(fa))
+    fw.write_text(os.path.join(d, "a.gaf"), "".join(gaf))
+    return {"gaf": os.path.join(d, "a.gaf"), "gfa": os.path.join(d, "g.gfa"), "fasta": os.path.join(d, "r.fa")}
+
+
 def make_inputs(d, nrec):
     os.makedirs(d, exist_ok=True)
     fw.write_text(os.path.join(d, "g.gfa"), GFA_TEXT)
@@ -30,13 +47,13 @@ def make_inputs(d, nrec):
 
 
 def cfg_for(d, c):
-    cfg = make_inputs(os.path.join(d, f"in-{c['nrec']}"), c["nrec"])
+    cfg = (make_long_inputs if c.get("long") else make_inputs)(os.path.join(d, f"in-{c['nrec']}{'-long' if c.get('long') else ''}"), c["nrec"])
     cfg.update(cores=c["cores"], batch=c["batch"], cpu_count=c["cpu_count"], pipe_capacity=c.get("pipe"))
     return cfg
 
 
 def cfg_key(c):
-    return f"cores={c['cores']},batch={c['batch']},records={c['nrec']},cpu_count={c['cpu_count']}" + (f",pipe_capacity={c['pipe']}" if c.get("pipe") else "")
+    return f"cores={c['cores']},batch={c['batch']},records={c['nrec']},cpu_count={c['cpu_count']}" + (f",pipe_capacity={c['pipe']}" if c.get("pipe") else "") + (",reads of 30 kb" if c.get("long") else "")
 
 
 def configs(tier):
@@ -49,6 +66,7 @@ def configs(tier):
         # a pipe that holds one message: a worker cannot finish until the parent reads (join before drain deadlocks)
         for cores, batch, nrec in ((1, 2, 2), (1, 2, 3), (2, 1, 2), (2, 2, 3), (2, 2, 4)):
             out.append({"cores": cores, "batch": batch, "nrec": nrec, "cpu_count": 16, "pipe": 1})
+        out.append({"cores": 2, "batch": 1, "nrec": 2, "cpu_count": 16, "long": True})
     else:
         for cpu in (16, 2, 1):
             for cores in (1, 2, 3):
@@ -61,6 +79,8 @@ def configs(tier):
                 for batch in (1, 2):
                     for nrec in (2, 4, 6):
                         out.append({"cores": cores, "batch": batch, "nrec": nrec, "cpu_count": 16, "pipe": cap})
+        for cores, batch, nrec in ((2, 1, 2), (2, 1, 3), (2, 2, 4), (3, 1, 3)):
+            out.append({"cores": cores, "batch": batch, "nrec": nrec, "cpu_count": 16, "long": True})
     return out
 
 
@@ -93,7 +113,7 @@ def reference_output(cfg, nrec):
 
 
 def virtual_summary(x):
-    return {"trace": x.trace, "outcome": x.outcome, "output": x.output}
+    return {"trace": x.trace, "outcome": x.outcome, "output": x.output, "uses_sync": getattr(x, "uses_sync", False)}
 
 
 def conform_real(cfg, choices, fault, x):
